@@ -11,6 +11,9 @@ import (
 
 func main() {
 	debug.SetGCPercent(400)
+	// soft limit: the collector works harder instead of letting the heap (5x live at GOGC 400) reach
+	// what the machine has
+	debug.SetMemoryLimit(28 << 30)
 	if len(os.Args) < 2 {
 		fmt.Fprintln(os.Stderr, "usage: vcheck <property> [quick|thorough] | vcheck replay <file>")
 		os.Exit(2)
